@@ -41,7 +41,7 @@ func RunContext(ctx context.Context, env *env.Env, options *Options, stmt ast.St
 	if runInfo.options == nil {
 		runInfo.options = &Options{}
 	}
-	runInfo.runSingleStmt()
+	runInfo.runStmtRecover()
 	if len(runInfo.defers) > 0 {
 		runInfo.runDefers()
 	}
@@ -49,6 +49,17 @@ func RunContext(ctx context.Context, env *env.Env, options *Options, stmt ast.St
 		runInfo.err = nil
 	}
 	return runInfo.rv.Interface(), runInfo.err
+}
+
+// runStmtRecover executes the statement of a whole run or of one function
+// invocation. Unless in Debug mode, a Go panic raised while executing it is
+// converted into the error of the run instead of crashing the caller.
+func (runInfo *runInfoStruct) runStmtRecover() {
+	if !runInfo.options.Debug {
+		// captures panic
+		defer recoverFunc(runInfo)
+	}
+	runInfo.runSingleStmt()
 }
 
 // runSingleStmt executes statement in the specified environment with context.
